@@ -194,8 +194,9 @@ macro_rules! field_impl {
             fn neg(self) -> Self::Output {
                 // Invariant uphold by the construction
                 // 0 <= self < PRIME
-                // therefore it is safe to avoid the modulo operation
-                Self(Self::PRIME - self.0)
+                // `PRIME - 0` is not a canonical element, so the result must be reduced:
+                // `-0 = 0`.
+                Self((Self::PRIME - self.0) % Self::PRIME)
             }
         }
 
